@@ -366,7 +366,7 @@ def run(ck, C2M, WORK, drv, runcmd, cases, QUICK, layout_eval):
              "arg_loc_hist": {}, "ret_loc_hist": {}, "excluded_types_layout_differs": 0,
              "engines": ["-eg", "-ei"], "value_fail": 0, "loc_c2m_vs_gcc_differ": 0,
              "model_c2m_loc_mismatch": 0, "model_sysv_loc_mismatch": 0, "classes": {}, "positions": {},
-             "counters_ok": 0, "class_types": 0, "class_side_condition_true": 0,
+             "class_types": 0, "class_side_condition_true": 0,
              "class_side_condition_true_equal": 0, "class_model_differs": 0, "class_invalid_pattern": 0}
     class_seen = set()
     reported = set()
@@ -450,9 +450,9 @@ def run(ck, C2M, WORK, drv, runcmd, cases, QUICK, layout_eval):
         for ln in lines:
             parts = [x.strip() for x in ln.split("|")]
             if len(parts) >= 2 and parts[0].startswith("P c2m "):
-                out.append((parts[0].split()[3:], parts[1].split()[2:], len(parts) > 2 and parts[2] == "cok=1"))
+                out.append((parts[0].split()[3:], parts[1].split()[2:]))
             else:
-                out.append((None, None, False))
+                out.append((None, None))
         return out
 
     def model_full(pr):
@@ -475,7 +475,7 @@ def run(ck, C2M, WORK, drv, runcmd, cases, QUICK, layout_eval):
                 if bad:
                     v["fails"][eng] = bad
                 v["locs"][eng] = locate(d, ps, layinfo, mlocs[k][1] if eng == "gcc" else mlocs[k][0])
-            v["m_c2m"], v["m_sysv"], v["cok"] = mlocs[k]
+            v["m_c2m"], v["m_sysv"] = mlocs[k]
             out.append(v)
         return out
 
@@ -608,8 +608,8 @@ def run(ck, C2M, WORK, drv, runcmd, cases, QUICK, layout_eval):
         for pr, v in zip(protos, vs):
             ret, ps = pr
             stats["protos"] += 1
-            if v.get("cok"):
-                stats["counters_ok"] += 1
+            if v.get("m_c2m") is not None:
+                # proto_meets_sysv_partial: the two models can differ only through the classes of an aggregate
                 if v["m_c2m"] != v["m_sysv"] and not any(
                         c.split("|")[0].split()[2:] != c.split("|")[1].split()[1:]
                         for c in drv(["class " + G.to_str(t) for t in ps if t[0] == "agg"])):
@@ -698,6 +698,8 @@ def run(ck, C2M, WORK, drv, runcmd, cases, QUICK, layout_eval):
             with ThreadPoolExecutor(max_workers=16) as ex:
                 done += list(zip(extra, ex.map(shrink_one, extra)))
         for (pr, v), (small, sv, sig) in done:
+            if origin == "corpus-regression":
+                sig = "C08:regression-of-fixed-finding:" + sig.split(":", 1)[-1]   # never listed: always a VIOLATION
             stats["classes"][sig] = stats["classes"].get(sig, 0) + 1
             if (sig, proto_str(small)) in reported:
                 stats["duplicate_reports_suppressed"] = stats.get("duplicate_reports_suppressed", 0) + 1
@@ -729,9 +731,16 @@ def run(ck, C2M, WORK, drv, runcmd, cases, QUICK, layout_eval):
             out.append((None, pre + [t]))
         return out, len(aggs)
 
-    cps = [proto_from_str(c["proto"]) for c in cases]
+    cps = [proto_from_str(c["proto"]) for c in cases if c.get("expect") != "pass"]
     if cps:
         process(cps, "corpus")
+    regs = [proto_from_str(c["proto"]) for c in cases if c.get("expect") == "pass"]
+    if regs:   # replays of fixed findings: any failure here is reported, whatever class it looks like
+        before = dict(stats["classes"])
+        process(regs, "corpus-regression")
+        stats["regressions_replayed"] = len(regs)
+        stats["regressions_failing"] = sum(n - before.get(k, 0) for k, n in stats["classes"].items()
+                                           if k.startswith("C08:regression-of-fixed-finding:"))
     if not ck.replay:
         nb, per = (2, 60) if QUICK else (12, 100)
         for i in range(nb):
